@@ -1,5 +1,5 @@
 """which contract modules exist, and per property: claimed level, assumptions, bounded stand-ins"""
-MODULES = ['contracts.c19_boxes', 'contracts.c01_membership', 'contracts.c04_bbox', 'contracts.c15_motions', 'contracts.c02_masks', 'contracts.c17_validation', 'contracts.c16_values', 'contracts.c20_pixcoord']
+MODULES = ['contracts.c19_boxes', 'contracts.c01_membership', 'contracts.c04_bbox', 'contracts.c15_motions', 'contracts.c02_masks', 'contracts.c17_validation', 'contracts.c16_values', 'contracts.c20_pixcoord', 'contracts.c06_sky', 'contracts.c07_wcs']
 
 A_PY = 'A-PY: CPython semantics of the modelled subset (ints exact, dict/list/str methods, left-to-right evaluation)'
 A_REAL = 'A-REAL: floats are treated as real numbers (no rounding, no overflow)'
@@ -42,4 +42,10 @@ PROPERTIES = {
                              'the 1e-5 relative tolerance is specified as a band: positions within 1e-5 relative of both values must compare equal, positions further apart than 1e-8 + 1e-5 max must compare unequal']),
     'C20': dict(level='proof', trusted=[A_PY, A_REAL, A_TRIG, A_NUMPY, A_UNITS, 'A-WCS: pixel_to_world/world_to_pixel of a WCS are inverse functions for equal (origin, mode); origin 1 = origin 0 + 1 (externals/wcs_model.py)'],
                 assumptions=[A_PY, A_REAL, A_TRIG, A_NUMPY, A_UNITS, 'broadcasting is verified for the shape pairs scalar/1-D/2-D/size-1 listed in the contract; boolean/integer-array fancy indexing is delegated to numpy and not modelled']),
+    'C06': dict(level='proof', trusted=[A_PY, A_REAL, A_TRIG, A_NUMPY, A_UNITS, 'A-WCS: a WCS is an invertible pair of abstract functions (externals/wcs_model.py); SkyCoord.directional_offset_by is an abstract function; atan2/hypot as in A-TRIG'],
+                assumptions=[A_PY, A_REAL, A_TRIG, A_NUMPY, A_UNITS, 'the projection and its 1e-6 numerical accuracy are not verified; region and WCS share the celestial frame; the WCS is locally non-degenerate at the region centre',
+                             'polygon membership after the round trip is not compared (vertices are); annulus membership follows from geometry + C01']),
+    'C07': dict(level='proof', trusted=[A_PY, A_REAL, A_TRIG, A_NUMPY, A_UNITS, 'A-WCS + ASSUMED local-similarity model of an undistorted WCS (contracts/c07_wcs.py: local_model)'],
+                assumptions=[A_PY, A_REAL, A_TRIG, A_NUMPY, A_UNITS, 'the local-similarity model is the meaning given to "undistorted celestial WCS"; distortion and projection mathematics are out of scope',
+                             'angles are compared modulo a full turn (through cos and sin)']),
 }
